@@ -76,6 +76,9 @@ func init() {
 			if n <= 0 {
 				fr.i.abort("infeasible", "vChoice over nothing")
 			}
+			if n == 1 {
+				return 0 // not recorded: the native vChoice does not consume a choice either
+			}
 			fr.i.ex.mu.Lock()
 			fr.i.ex.St.ShapeForks++
 			fr.i.ex.mu.Unlock()
